@@ -831,6 +831,14 @@ func (u *PatchingManagedFieldsUpgrader) Upgrade(ctx context.Context, obj client.
 		return nil
 	}
 
+	// There are no managed fields to clear. This is the case right after we
+	// cleared them: if that patch took effect but we never saw its reply (or
+	// crashed), repeating it would fail forever, because a JSON patch cannot
+	// replace a field that does not exist.
+	if len(obj.GetManagedFields()) == 0 {
+		return nil
+	}
+
 	foundSSA := false
 	foundBFA := false
 	idxBFA := -1
